@@ -110,7 +110,12 @@ def run_case(ctx, case, model=True):
                     if comp.name not in got_rows:
                         continue
                     cr = R.component_result(comp, dt, spec_by)
-                    row = detail.loc[comp.name]
+                    # names repeat across switchboards / shaft lines: the row of this component is the one of its node
+                    sel = detail[(detail.index == comp.name) & (detail["switchboard id" if side == "electric" else "shaftline id"] == nid)]
+                    if len(sel) != 1:
+                        ctx.fail("predicate", "detail-rows", f"{side}: {len(sel)} rows for {comp.name} on node {nid}", where)
+                        continue
+                    row = sel.iloc[0]
                     fuel_row = row["multi fuel consumption [kg]"].total_fuel_consumption
                     if not close(float(np.sum(fuel_row)), float(np.sum(cr.multi_fuel_consumption_total_kg.total_fuel_consumption)), scale=1.0):
                         ctx.fail("predicate", "detail-row-fuel", f"{side} {comp.name}: row {fuel_row} component {cr.multi_fuel_consumption_total_kg.total_fuel_consumption}", where)
